@@ -75,12 +75,12 @@ Definition path_eqb : list nat * id -> list nat * id -> bool := pair_eqb (list_e
    nm when it is nm, possibly surrounded by ASCII whitespace (so a CR before the
    LF, indentation and trailing blanks do not matter; blank lines list nothing).
    Whitespace INSIDE a line separates nothing: a line is one id. *)
-Definition blank (b : nat) : bool := existsb (Nat.eqb b) [9; 10; 11; 12; 13; 32].
+Definition blank (b : N) : bool := existsb (N.eqb b) [9; 10; 11; 12; 13; 32]%N.
 
 Fixpoint split_lf (f : bytes) : list bytes :=
   match f with
   | [] => [[]]
-  | b :: r => if Nat.eqb b 10 then [] :: split_lf r
+  | b :: r => if N.eqb b 10 then [] :: split_lf r
               else match split_lf r with
                    | l :: ls => (b :: l) :: ls
                    | [] => [[b]]
@@ -89,7 +89,7 @@ Fixpoint split_lf (f : bytes) : list bytes :=
 Fixpoint join_lf (ls : list bytes) : bytes :=
   match ls with
   | [] => []
-  | l :: r => match r with [] => l | _ => l ++ 10 :: join_lf r end
+  | l :: r => match r with [] => l | _ => l ++ 10%N :: join_lf r end
   end.
 
 Fixpoint skip_blank (l : bytes) : bytes :=
@@ -100,7 +100,7 @@ Fixpoint skip_blank (l : bytes) : bytes :=
 Fixpoint after_prefix (p l : bytes) : option bytes :=
   match p, l with
   | [], _ => Some l
-  | a :: p', b :: l' => if Nat.eqb a b then after_prefix p' l' else None
+  | a :: p', b :: l' => if N.eqb a b then after_prefix p' l' else None
   | _ :: _, [] => None
   end.
 Definition line_lists (nm line : bytes) : bool :=
@@ -120,7 +120,7 @@ Definition listedb (nms : list bytes) (f : bytes) (i : id) : bool :=
 Definition wf_nameb (nm : bytes) : bool :=
   match nm with [] => false | b :: _ => negb (blank b) end
   && match rev nm with [] => false | b :: _ => negb (blank b) end
-  && forallb (fun b => negb (Nat.eqb b 10)) nm.
+  && forallb (fun b => negb (N.eqb b 10)) nm.
 Definition wf (i : input) : Prop := forallb wf_nameb (names i) = true.
 
 Definition spec_okb (i : input) (o : obs) : bool :=
